@@ -1,15 +1,18 @@
 use super::ast::Definition;
 use super::report_code::ReportCode;
 use super::report::Report;
-use super::file_definition::FileID;
+use super::file_definition::{FileID, FileLocation};
 use super::function_data::{FunctionData, FunctionInfo};
 use super::template_data::{TemplateData, TemplateInfo};
+use std::collections::HashMap;
 
 #[derive(Default)]
 pub struct Merger {
     fresh_id: usize,
     function_info: FunctionInfo,
     template_info: TemplateInfo,
+    // Where each name was defined first.
+    first_definitions: HashMap<String, (FileID, FileLocation)>,
 }
 
 impl Merger {
@@ -80,7 +83,20 @@ impl Merger {
                     file_id,
                     format!("The name `{definition_name}` is already used."),
                 );
+                // Point at the first definition as well. The two may be in different
+                // files, and the report concerns both of them.
+                if let Some((first_id, first_location)) =
+                    self.first_definitions.get(definition_name)
+                {
+                    report.add_primary(
+                        first_location.clone(),
+                        *first_id,
+                        format!("The name `{definition_name}` is first used here."),
+                    );
+                }
                 reports.push(report);
+            } else {
+                self.first_definitions.insert(definition.name(), (file_id, meta.file_location()));
             }
         }
         if reports.is_empty() {
